@@ -56,6 +56,24 @@ VALID = re.compile(r"\A[0-9a-f]{96}\Z")
 POOL = 8
 
 
+_LOOP = {"pid": None, "loop": None}
+
+
+def _get_loop():
+    """one private loop per *process*: the runner replays corpus/<id>/regress in the parent before it forks the
+    shard workers, and a loop (with its default executor threads) inherited through fork() never runs its
+    run_in_executor jobs, so a forked child must not reuse the parent's loop (nor close it)"""
+    if _LOOP["pid"] != os.getpid() or _LOOP["loop"] is None or _LOOP["loop"].is_closed():
+        if _LOOP["loop"] is not None:
+            # keep the inherited loop object alive and untouched: closing it (or letting it be collected) would
+            # unregister the parent's wake-up pipe from the epoll instance both processes share
+            _LOOP.setdefault("inherited", []).append(_LOOP["loop"])
+        loop = asyncio.new_event_loop()
+        asyncio.set_event_loop(loop)
+        _LOOP["pid"], _LOOP["loop"] = os.getpid(), loop
+    return _LOOP["loop"]
+
+
 def _h(data):
     return hashlib.sha384(data).hexdigest()
 
@@ -79,7 +97,7 @@ class World:
             os.mkdir(d)
         self.db_path = os.path.join(tmp, "lbrynet.sqlite")
         self.conf = types.SimpleNamespace(save_blobs=save_blobs, blob_lru_cache_size=0, track_bandwidth=False)
-        self.loop = aio.get_loop()
+        self.loop = _get_loop()
         self.storage = None
         self.bm = None
         self.known = []        # every hash ever introduced, in order of introduction
@@ -487,7 +505,7 @@ def run_case(case):
     out = Out()
     tmp = tempfile.mkdtemp(prefix="verif-c18-")
     try:
-        aio.run(_run(case, out, tmp))
+        aio.run(_run(case, out, tmp), loop=_get_loop())
     finally:
         shutil.rmtree(tmp, ignore_errors=True)
     return out
